@@ -3,7 +3,6 @@ package lib
 import (
 	"fmt"
 	"strings"
-	"unicode/utf8"
 
 	"luahelper-lsp/langserver/check/compiler/lexer"
 	"luahelper-lsp/langserver/codingconv"
@@ -41,12 +40,47 @@ func LexDump(src []byte) (dump string, conv string, panicked bool) {
 			if c == q {
 				raw := string(src[i+1 : j])
 				if raw != "" {
-					convSet[raw] = utf8.RuneCountInString(codingconv.ConvertStrToUtf8(raw))
+					convSet[raw] = utf16Units(codingconv.ConvertStrToUtf8(raw))
 				}
 				break
 			}
 			if c == '\n' || c == '\r' {
 				break
+			}
+		}
+	}
+	// the last line of a long string / long comment counts in characters too: every candidate text between a line start
+	// (or the end of an opening long bracket on that line) and a closing long bracket gets an entry
+	for j := 0; j < len(src); j++ {
+		if src[j] != ']' {
+			continue
+		}
+		k := j + 1
+		for k < len(src) && src[k] == '=' {
+			k++
+		}
+		if k >= len(src) || src[k] != ']' {
+			continue
+		}
+		ls := j
+		for ls > 0 && src[ls-1] != '\n' && src[ls-1] != '\r' {
+			ls--
+		}
+		if seg := string(src[ls:j]); seg != "" {
+			convSet[seg] = utf16Units(codingconv.ConvertStrToUtf8(seg))
+		}
+		for o := ls; o < j; o++ {
+			if src[o] != '[' {
+				continue
+			}
+			e := o + 1
+			for e < j && src[e] == '=' {
+				e++
+			}
+			if e < j && src[e] == '[' {
+				if seg := string(src[e+1 : j]); seg != "" {
+					convSet[seg] = utf16Units(codingconv.ConvertStrToUtf8(seg))
+				}
 			}
 		}
 	}
@@ -62,7 +96,7 @@ func LexDump(src []byte) (dump string, conv string, panicked bool) {
 		loc := l.GetNowTokenLoc()
 		if kind == lexer.TkString || kind == lexer.IKIllegal {
 			if str != "" {
-				convSet[str] = utf8.RuneCountInString(codingconv.ConvertStrToUtf8(str))
+				convSet[str] = utf16Units(codingconv.ConvertStrToUtf8(str))
 			}
 		}
 		p := fmt.Sprintf("%d,%s,%d,%d:%d:%d:%d,E%d", int(kind), Hex([]byte(str)), line, loc.StartLine, loc.StartColumn, loc.EndLine, loc.EndColumn, len(cur))
@@ -75,6 +109,18 @@ func LexDump(src []byte) (dump string, conv string, panicked bool) {
 		}
 	}
 	return strings.Join(parts, ";"), convTable(convSet), false
+}
+
+// utf16Units: the lexer's column unit (UTF-16 code units)
+func utf16Units(s string) int {
+	n := 0
+	for _, r := range s {
+		n++
+		if r > 0xFFFF {
+			n++
+		}
+	}
+	return n
 }
 
 func convTable(m map[string]int) string {
